@@ -41,6 +41,10 @@ type PropSpec struct {
 	// obligations belong to this property (the others belong to other properties' checks)
 	Scope        []string `json:"scope"`
 	ScopeExclude []string `json:"scope_exclude"`
+	// Sweep: package path suffixes whose every source function is analysed (zero-annotation
+	// sweep for run-time checks); SweepExclude: function key -> reason it is not covered
+	Sweep        []string          `json:"sweep"`
+	SweepExclude map[string]string `json:"sweep_exclude"`
 	PinnedFile   string   `json:"pinned_file"`   // JSON map obligation -> clause text (in spec/)
 	PinnedLabels []string `json:"pinned_labels"` // labels (ensures:<label>) of pinned_file that this property pins
 }
@@ -148,6 +152,27 @@ func (s *Session) RunCheck(ps *PropSpec, opts CheckOpts) int {
 		}
 	}
 	var results []*FuncResult
+	if len(ps.Sweep) > 0 {
+		have := map[string]bool{}
+		for _, k := range ps.Functions {
+			have[k] = true
+		}
+		for _, k := range ex.SweepKeys() {
+			sk := shortObl(k)
+			if have[sk] {
+				continue
+			}
+			if _, skip := ps.SweepExclude[sk]; skip {
+				continue
+			}
+			for _, p := range ps.Sweep {
+				if strings.HasPrefix(sk, p+".") {
+					ps.Functions = append(ps.Functions, sk)
+					break
+				}
+			}
+		}
+	}
 	for _, k := range ps.Functions {
 		key := k
 		if !strings.HasPrefix(key, ModulePath) {
@@ -416,6 +441,8 @@ func (s *Session) RunCheck(ps *PropSpec, opts CheckOpts) int {
 		"scope":               ps.Scope,
 		"out_of_scope_query_instances": outOfScope,
 		"pinned_clauses":      len(ps.Pinned),
+		"sweep_packages":      ps.Sweep,
+		"sweep_not_covered":   ps.SweepExclude,
 	}
 	nReach, nMaybe := 0, 0
 	var vacuous []string
